@@ -36,7 +36,7 @@ RULE = ("probability vectors: 8 dyadic classes (uniform, one dominant, many zero
 MODELLED = [
     "numpy arrays / collections.deque / Python lists as Coq lists (alias deques right-to-left); np.uint(ku) as floor; int(x) as truncation; np.cumsum as a running sum; np.searchsorted(side=left) on a non-decreasing array as the number of leading entries < v",
     "list.sort(key, reverse=True) as a stable decreasing insertion sort; bisect.bisect_left by its binary-search loop",
-    "hidden state: Sampling.sampling_cost counters and the lru_cache of BinarySearchTreeAdapted1D._compute_probability are threaded explicitly in Model/Stateful.v (any eviction policy that only drops entries) and proved not to influence the output; functools.cache of PairingToZ1d.project and the lru_cache of the n-d tree are modelled as the identity on pure functions",
+    "hidden state: Sampling.sampling_cost counters (write-only) and the lru caches of BinarySearchTreeAdapted1D / BinarySearchTreeAdapted._compute_probability (read caches) are threaded explicitly in Model/Stateful.v (any eviction policy that only drops entries) and proved not to influence the output; functools.cache of PairingToZ1d.project is modelled as the identity on a pure function",
     "TableMethod: table_draw_word is _sample_one as written (one 32-bit word gives the slot byte and the alias uniform); C02_table_law is the idealised product law, C02_table_draw_law the exact count over the 2^32 words",
     "BinarySearchTreeAdapted (n-d): Model/BstAdaptedNd.v (buckets = itertools.product of the per-axis pieces, cached axis vectors, flattened `while any: for k` loop) over an abstract box mass; tied exactly on 2-d table-copula chains (harness/stepmeasure.py Table2: arbitrary dyadic cell masses), wider chains (Clayton, 3-d) by the oracle",
     "InversionMethod: Model/Inversion.v over an abstract enumeration; 1-d: z1d_project (C14) with the implementation's max_frontier_indices fed as data and inside = in the grid; 2-d: zd2_project szudzik, inside = in the box, probability table as data",
@@ -46,7 +46,7 @@ MODELLED = [
 ]
 ASSUMPTIONS = [
     "probability vector entries are >= 0 (zeros and ties allowed), length >= 1; uniforms 0 <= u < sum p (alias, table: sum p = 1)",
-    "C02_inversion_admissible: restart_harmless (the restart at x == _max_storage lands on the right admissible index): discharged by C02_inversion_restart_harmless when every index 0..F is admissible (1-d chains: PairingToZ1d enumerates exactly the grid, C14_z1d_project; centred square grids with Szudzik) or when the storage never fills; otherwise false: C02_inversion_overflow_refuted (F-C02-7). prob >= 0 (the factory clips with max(.,0)), _max_storage >= 1, F >= 0",
+    "C02_inversion_admissible: unconditional in the enumeration (any inadmissible indices, any number of restarts; StatesManager half = C14 sm_step_protocol on the tree repaired by a073fcb); prob >= 0 (the factory clips with max(.,0)), _max_storage >= 1, F >= 0. The random frontier state drawn on exhaustion (u above the sum) is modelled as the symbol Frontier; with a custom Domain/RectangleBoundary that draw can return the origin (audit D13) -- not reachable through the factory, which hard-codes Boundary()",
     "C02_bstadapted1d_law: mass additive and non-negative on ordered intervals (closed forms: C09), cell boundaries ordered (C13), left-tail mass = mass of the left axis cells (truncation, C01), lambda > 0, a point on each side of the origin; C02_bstadapted1d_cache_history_free: mass is a function of the values of its arguments, eviction only drops entries",
     "C02_bstadaptednd_*: the box mass bm is non-negative and additive under the split of one axis (C12 for the copula rectangle mass), coordinates in [0, B)",
     "right-closed samplers (INVERSION, BSTADAPTED 1-d/n-d): 'never a zero-probability state' is proved for u > 0 only; u = 0 is the recorded finding F-C02-6 (C02_*_zero_uniform_refuted)",
@@ -54,36 +54,39 @@ ASSUMPTIONS = [
 THEOREM_NOTES = {
     "C02_bst_law": "full: any length >= 1; constructor total (fuel 4k+4 proved sufficient); descent = locate on the in-order leaves, each state exactly once with length p_s",
     "C02_bst_range_nonzero / C02_huffman_range_nonzero": "corollaries: index in [0,K), a zero-probability state is never returned",
-    "C02_inversion_admissible": "full for every enumeration, with inadmissible indices, under restart_harmless: inv_step = locate_r over the admissible sub-enumeration in every reachable state (any history, storage overflow included); uses the sm_G lemmas of C14_StatesManager",
-    "C02_inversion_history_free / C02_inversion_law": "the wave-1 statements (all indices admissible), kept; instances of C02_inversion_admissible",
+    "C02_inversion_admissible": "full and unconditional: EVERY enumeration (inadmissible indices), every _max_storage >= 1, every reachable state (any history, any number of restarts after the storage is full): inv_step = locate_r over the admissible sub-enumeration; the StatesManager half is C14's sm_step_protocol on the tree repaired by a073fcb (state = (_last_projected_index, _last_logged_index))",
     "C02_huffman_law": "full: whatever position Heap.insert computes",
     "C02_alias_law": "full: invariant (Phi)/(S)/(R) of create_alias, clean-up loops are no-ops when sum p = 1 (they are exercised by the sum-not-1 vectors of the correspondence), draw = locate on the columns",
     "C02_bstadapted1d_law": "full for the repaired code (grid.middle) under the Section hypotheses listed in `assumptions`",
     "C02_table_law": "idealised product law (byte and alias uniform independent)",
     "C02_table_draw_law": "exact: number of 32-bit words sent to k is 2^32 p_k within 512 K (P(k) = p_k within K 2^-23), exactly 2^32 p_k without residual; C02_table_draw_never_zero: no word gives a zero-probability state",
     "C02_factory_never_origin": "create_vec_jump_matrix + states map: increment 0 never returned by ALIAS/BST/HUFFMAN of a 1-d chain (TABLE: C02_table_draw_never_zero with p_origin = 0)",
-    "C02_history_free_table_driven / C02_bstadapted1d_cache_history_free": "state-passing models (cost counters, lru cache with arbitrary eviction): outputs of any draw sequence = map of the state-free draw",
+    "C02_history_free_table_driven": "about a WRITE-ONLY state (cost counters that no draw ever reads): true by construction of the models, it records that nothing else is carried between draws; it cannot detect a defect by itself -- the two-order / fresh-instance replays of the correspondence do",
+    "C02_bstadapted1d_cache_history_free / C02_bstadaptednd_cache_history_free": "READ caches (a hit replaces the evaluation of the mass): 1-d keyed by the float arguments, n-d keyed by the box; any eviction policy that only drops entries; soundness of the cache is relative to the instance's own mass (a cache shared between instances breaks it)",
     "C02_bstadaptednd_bucket_law": "full for sample_one_bucket: termination with the model's fuel by the potential (d+1)(sum(hi-lo) - [axis >= k moves]) + (d-k); right-closed step function; every cell of the bucket exactly once with length bm(cell)",
-    "C02_bstadaptednd_law_partial": "PARTIAL: bucket stage (searchsorted on cumulative bucket probabilities + residual) composed with sample_one_bucket for any non-empty list of buckets none of which is served from the cached axis vectors. Missing for the full statement: composition through the cached vectors (their totals: lemma axis_total) and 'the buckets of itertools.product partition the non-origin cells'; both are covered by the exact correspondence on table-copula chains",
+    "C02_bstadaptednd_law": "full on the REAL bucket list buckets d n o of _pre_computation: cached-axis branch (searchsorted (axis_cum b) = locate_r (axis_segs b), with the min(., len-1) repair) and bisection branch composed with the bucket stage; product buckets partition the non-origin cells (buckets_partition): every non-origin cell exactly once with length bm(cell), never the origin, never outside the grid. Example C02_bstadaptednd_nonvacuous: buckets 2 5 2 has 8 buckets, 4 of them cached",
     "C02_inversion_zero_uniform_refuted / C02_bstadapted1d_zero_uniform_refuted": "vm_compute witnesses of F-C02-6 on the faithful models",
-    "C02_inversion_overflow_refuted": "vm_compute witness of F-C02-7 on the faithful model",
+    "C02_inversion_overflow_orig / C02_inversion_overflow_repaired": "Examples: the historical witness of F-C02-7 = F-C14-6 on the ORIGINAL model (Model/InversionOrig.v) and the same instance on the repaired model (answers state 3 with storage 1, 2, 10^6)",
 }
-LEVEL_TEXT = ("Proof: 18 positive Coq theorems (closed under the global context, no axioms) state, for ALL probability vectors of any length "
+LEVEL_TEXT = ("Proof: 17 positive Coq theorems (closed under the global context, no axioms) state, for ALL probability vectors of any length "
               ">= 1 with zeros and ties, that BinarySearchTree, HuffmanTree, AliasMethod and TableMethod are step functions of the uniform "
               "whose intervals labelled k have total length exactly p_k (constructors total, indices in range, zero-probability states and, "
               "through the factory's vector and states map, the origin never returned); TableMethod also as the code consumes ONE 32-bit "
-              "word (exact count over the 2^32 words within 512 K of 2^32 p_k); that InversionMethod+StatesManager, for every enumeration "
-              "with inadmissible indices whose restart at _max_storage is harmless, returns in every reachable state (any draw history) "
-              "the state of the right-closed step function over the admissible states; BinarySearchTreeAdapted1D is the right-closed step "
-              "function of the cell masses for any additive mass; n-d sample_one_bucket terminates and gives every cell of the bucket "
-              "exactly bm(cell); cost counters and the lru cache (any eviction) never influence outputs. 3 theorems are refutation "
-              "witnesses of the two recorded findings. The hand-written executable models are tied to /repo on every run by a vm_compute "
-              "correspondence (~40k draws at all break points: direct constructors, every SamplingMethod through MarkovChainProcess on "
-              "centred and non-centred grids, n-d tree on table-copula chains, 32-bit words for TABLE, cost counters, the factory "
-              "vector) plus an implementation-only oracle (exact integration of u -> state, exact word law of TABLE, batch vs single "
-              "uniform with lowered storage, same array twice, two orders). Partial: the n-d composition through the cached axis vectors "
-              "and the partition of the cells by the product buckets are covered by exact correspondence only; float rounding for "
-              "non-dyadic inputs is outside the theorems.")
+              "word (exact count over the 2^32 words within 512 K of 2^32 p_k); that InversionMethod+StatesManager (repaired restart), for "
+              "EVERY enumeration with inadmissible indices and every _max_storage >= 1, returns in every reachable state (any draw history, "
+              "any number of restarts) the state of the right-closed step function over the admissible states; BinarySearchTreeAdapted1D is "
+              "the right-closed step function of the cell masses for any additive mass; the n-d BinarySearchTreeAdapted on the real bucket "
+              "list of _pre_computation (cached axis vectors and axis-cycling bisection, which terminates) gives every non-origin cell of "
+              "the grid exactly bm(cell), never the origin. History: the 1-d and n-d lru caches are proved to be harmless READ caches for any "
+              "eviction policy; C02_history_free_table_driven is only about a write-only state (cost counters) and detects nothing by itself. "
+              "2 theorems are refutation witnesses of the recorded finding F-C02-6 (u = 0.0 in the right-closed samplers); F-C02-7 is fixed "
+              "(historical witness kept as an Example on the original model). The hand-written executable models are tied to /repo on every "
+              "run by a vm_compute correspondence (~45k draws at all break points: direct constructors, every SamplingMethod through "
+              "MarkovChainProcess on centred and non-centred grids, the n-d tree on table-copula, independent and dependent copula chains in "
+              "2-d and 3-d, 32-bit words for TABLE, cost counters, the factory vector, inversion histories incl. the exhaustion path with "
+              "uniforms above the sum) plus an implementation-only oracle (exact integration of u -> state, exact word law of TABLE, batch "
+              "vs single uniform with lowered storage, same array twice, two orders, float sums below 1). Float rounding for non-dyadic "
+              "inputs is outside the theorems; the random frontier state drawn on exhaustion is modelled as a symbol.")
 LEVEL_NOTE = ("Trusted: Coq kernel + vm_compute; hand-written models (lists for arrays/deques, floor for np.uint, stable insertion sort for "
               "list.sort, bisect_left loop, cumsum/searchsorted on sorted arrays) tied by exact comparison on dyadic inputs; Q arithmetic "
               "stands for float arithmetic (exact on the dyadic inputs compared; non-dyadic inputs only by the oracle with tolerance 1e-9); "
@@ -639,7 +642,7 @@ def _pieces_lit(meas):
     return lst([f"({qlit(l)}, {qlit(r)}, {qlit(d)})" for l, r, d in meas.pieces])
 
 
-RIGHT_CLOSED = ("INVERSION", "BINARYSEARCHTREEADAPTED1D", "INVERSION-2d", "BINARYSEARCHTREEADAPTED-2d")
+RIGHT_CLOSED = ("INVERSION", "BINARYSEARCHTREEADAPTED1D", "INVERSION-2d", "BINARYSEARCHTREEADAPTED-2d", "INVERSION-3d", "BINARYSEARCHTREEADAPTED-3d")
 
 
 def _scripted_uniforms(us):
@@ -798,12 +801,25 @@ def chains(res, rng, groups, viol):
                                 seq.sort(reverse=True)
                             elif order == "repeats":
                                 seq = [rng.choice(seq[: max(1, nd // 4)]) for _ in range(nd)]
+                        # the exhaustion path: uniforms above the sum of the probabilities (and the largest float below 1) -> the
+                        # enumeration is exhausted, StatesManager draws a frontier state at random
+                        if rng.random() < 0.5:
+                            for extra in (1.25, ulp_down(1.0), 1.0625):
+                                seq.insert(rng.randrange(len(seq) + 1), extra)
+                        sm2 = s2.state_manager
+                        fr_states = sorted({int(sm2.pairing.project(ix)) for ix in sm2.frontier_states_indices})
                         outs = []
                         for u in seq:
                             o = int(s2.sample_with_u(u))
                             outs.append(o)
                             res.count(("inv", h, L, R, tuple(masses), M, order, u, len(outs)), kind="InversionMethod.sample_with_u (sequence)")
-                            check_state(name, o, u)
+                            if u > 1.0:
+                                res.bump("inversion_exhaustion", "u above the sum")
+                                if o not in fr_states or o == 0 or not (-L <= o <= R):
+                                    viol("InversionMethod: a uniform above the sum of the probabilities does not give a frontier state of the grid",
+                                         sampler=name, u=u, got=o, frontier=fr_states, **ctx0)
+                            else:
+                                check_state(name, o, u)
                         res.bump("inversion_order", order)
                         res.bump("inversion_max_storage", M)
                         # the same uniforms in another order on a fresh sampler: outputs must be a function of u only
@@ -815,7 +831,7 @@ def chains(res, rng, groups, viol):
                         outs3 = {}
                         for i in perm:
                             outs3[i] = int(s3.sample_with_u(seq[i]))
-                        diff = [i for i in range(len(seq)) if outs3[i] != outs[i]]
+                        diff = [i for i in range(len(seq)) if outs3[i] != outs[i] and seq[i] <= 1.0]
                         if diff:
                             i = diff[0]
                             viol("InversionMethod: the state returned for a uniform depends on the earlier draws", sampler=name,
@@ -824,7 +840,7 @@ def chains(res, rng, groups, viol):
                         final_cum = lst([qlit(float(c)) for c in s2._cumulative_probabilities])
                         sm = s2.state_manager
                         g_inv.append(f"({lst([qlit(float(x)) for x in grid.axes[0]])}, {zlit(L)}, {zlit(int(sm.max_frontier_indices))}, {_pieces_lit(meas)}, {qlit(lam)}, {zlit(Mz)}, "
-                                     f"{_qpairs(zip(seq, outs))}, {final_cum}, ({zlit(int(sm._last_projected_index))}, {zlit(int(sm._last_logged_index))}))")
+                                     f"{_qpairs(zip(seq, outs))}, {final_cum}, ({zlit(int(sm._last_projected_index))}, {zlit(int(sm._last_logged_index))}), {lst([zlit(v) for v in fr_states])})")
                 # batch sample(size) with a lowered storage against the single-uniform entry point: the batch contains
                 # uniforms beyond the stored cumulative sums, in several orders
                 for M in (1, 2, 3, 5, 20):
@@ -868,7 +884,7 @@ def chains(res, rng, groups, viol):
                          sampler=name, **ctx0)
                 g_ba.append(f"({lst([qlit(float(x)) for x in grid.axes[0]])}, {zlit(L)}, {_pieces_lit(meas)}, {qlit(lam)}, {qlit(h)}, {_qpairs(zip(us2, outs))})")
 
-    groups.append(("inversion", "list Q * Z * Z * list (Q * Q * Q) * Q * Z * list (Q * Z) * list Q * (Z * Z)", "chk_inversion", g_inv))
+    groups.append(("inversion", "list Q * Z * Z * list (Q * Q * Q) * Q * Z * list (Q * Z) * list Q * (Z * Z) * list Z", "chk_inversion", g_inv))
     groups.append(("bstadapted1d", "list Q * Z * list (Q * Q * Q) * Q * Q * list (Q * Z)", "chk_ba1d", g_ba))
     groups.append(("factoryvec", "list Q * Q * Z * list Q * list Z", "chk_factory_vec", g_vec))
 
@@ -921,6 +937,75 @@ def chain_probability_step(res, rng, viol):
                     viol(f"{name} on a probability-step grid: total length of the uniforms sent to a state differs from rate/intensity",
                          state=k - o, length=got, target=float(pk), **ctx)
                     break
+
+
+# ----------------------------------------------------------------------------- float sums below 1 (oracle only)
+def chain_float_sum(res, rng, viol):
+    """1-d chains whose intensity is not a power of two: rate / intensity is rounded and the float cumulative sum can end
+    below 1 - 2^-53.  Every sampler must still return a state of the grid (never the origin) for u = 1 - 2^-53; for INVERSION
+    a uniform above the float sum takes the exhaustion path (random frontier state)."""
+    from rpylib.distribution.sampling import SamplingMethod as SM
+    from rpylib.distribution.variate import huffmantree as H
+    below = 0
+    for trial in range(12 if res.tier == "quick" else 60):
+        L, R = rng.choice([(2, 2), (3, 5), (6, 2), (10, 10)])
+        n = L + R + 1
+        ints = _composition(rng, 3 * (1 << 8), n - 1, zero_frac=rng.choice([0.0, 0.3]))
+        masses = [Fr(v, 1 << 8) for v in ints[:L] + [0] + ints[L:]]          # total intensity 3
+        ctx = dict(h=0.25, left=L, right=R, masses=[str(m) for m in masses])
+        for method in (SM.INVERSION, SM.ALIAS, SM.BINARYSEARCHTREE, SM.HUFFMANNTREE, SM.BINARYSEARCHTREEADAPTED1D):
+            name = method.name
+            try:
+                proc, grid, meas = build_chain(0.25, L, masses, method, right=R)
+            except Exception as e:  # noqa
+                viol(f"factory raises {type(e).__name__} for SamplingMethod.{name}", sampler=name, error=str(e)[:200], **ctx)
+                continue
+            s = proc.sampling
+            u = ulp_down(1.0)
+            try:
+                if name == "ALIAS":
+                    o = int(s.states([s._draw_with_u(u)])[0])
+                elif name == "HUFFMANNTREE":
+                    o = int(s.states(H.sample_with_u(u, s.head)[0]))
+                else:
+                    o = int(s.sample_with_u(u))
+            except Exception as e:  # noqa
+                viol(f"{name}: the uniform 1 - 2^-53 raises {type(e).__name__}", sampler=name, u=u, error=str(e)[:200], **ctx)
+                continue
+            res.count(("float-sum", name, L, R, tuple(masses)), kind=f"{name} at 1 - 2^-53 (rounded probabilities)")
+            target_o = masses[o + L] if -L <= o <= R else None
+            if o == 0 or not (-L <= o <= R) or target_o == 0:
+                extra = {}
+                if name in ("BINARYSEARCHTREE", "HUFFMANNTREE"):
+                    # the catch-all leaf: the last leaf in in-order receives every uniform at or above the float sum of the vector
+                    if name == "BINARYSEARCHTREE":
+                        ptr, spine = 1, []
+                        while ptr <= s.K:
+                            spine.append(float(s.bst[ptr - 1]))
+                            ptr = 2 * ptr + 1
+                        last_leaf = int(s.states(ptr - s.K - 1))
+                        float_sum = max(spine)
+                    else:
+                        node, acc = s.head, 0.0
+                        while not node.is_leaf:
+                            acc += float(node.left_node.value)
+                            node = node.right_node
+                        last_leaf = int(s.states(node.state))
+                        float_sum = acc + float(node.value)
+                    extra = dict(finding="F-C02-8", last_inorder_leaf=last_leaf, float_sum_of_probabilities=float_sum,
+                                 intensity=float(proc.intensity_of_jumps))
+                viol(f"{name}: the uniform 1 - 2^-53 gives the origin, a zero-probability state or a state outside the grid (rounded probabilities)",
+                     sampler=name, u=u, got=o, **extra, **ctx)
+            if name == "INVERSION":
+                top = float(s._cumulative_probabilities[-1])
+                sm = s.state_manager
+                fr = {int(sm.pairing.project(ix)) for ix in sm.frontier_states_indices}
+                if top < u:
+                    below += 1
+                    if o not in fr:
+                        viol("InversionMethod: a uniform above the float sum of the probabilities does not give a frontier state",
+                             sampler=name, u=u, float_sum=top, got=o, frontier=sorted(fr), **ctx)
+    res.bump("float_sum_below_largest_uniform", below)
 
 
 # ----------------------------------------------------------------------------- 2-d chain (oracle only)
@@ -1064,6 +1149,9 @@ def chain_2d(res, rng, groups, viol):
             for M in storages:
                 nd = rng.choice([3, 10, 30])
                 seq = [rng.randrange(0, 1 << 30) / (1 << 30) for _ in range(nd)] + [0.875 + k / 64 for k in range(4)]
+                if method == SM.INVERSION and exact and rng.random() < 0.6:
+                    for extra_u in (1.25, 1.0625):          # above the sum: exhaustion, random frontier state
+                        seq.insert(rng.randrange(len(seq) + 1), extra_u)
                 outs, samplers = [], []
                 for order in (list(range(len(seq))), rng.sample(range(len(seq)), len(seq))):
                     s2 = mk()[0].sampling
@@ -1074,16 +1162,23 @@ def chain_2d(res, rng, groups, viol):
                     for i in order:
                         got[i] = f2(seq[i])
                         res.count(("hist-2d", name, copula_name, h, L, R, M, seq[i], len(got)), kind=f"{name} sequence")
-                        check_state(got[i], seq[i], {"max_storage": M})
+                        if seq[i] > 1.0:
+                            fr2 = {tuple(int(c_) for c_ in pz.project(ix)) for ix in s2.state_manager.frontier_states_indices}
+                            res.bump("inversion2d_exhaustion", "u above the sum")
+                            if got[i] not in fr2 or got[i] == (0, 0) or got[i] not in target:
+                                viol(f"{name}: a uniform above the sum of the probabilities does not give a frontier state of the grid",
+                                     u=seq[i], got=list(got[i]), **ctx)
+                        else:
+                            check_state(got[i], seq[i], {"max_storage": M})
                     outs.append(got)
                     samplers.append(s2)
                 res.bump("inversion2d_max_storage" if method == SM.INVERSION else "bstadapted2d_sequences", M)
-                diff = [i for i in range(len(seq)) if outs[0][i] != outs[1][i]]
+                diff = [i for i in range(len(seq)) if outs[0][i] != outs[1][i] and seq[i] <= 1.0]
                 if diff:
                     i = diff[0]
                     viol(f"{name}: the state returned for a uniform depends on the earlier draws", max_storage=M, sequence=seq, index=i,
                          first=list(outs[0][i]), second=list(outs[1][i]), **ctx)
-                ref = {i: one(seq[i]) for i in range(len(seq))}
+                ref = {i: (one(seq[i]) if seq[i] <= 1.0 else outs[0][i]) for i in range(len(seq))}
                 bad = [i for i in range(len(seq)) if outs[0][i] != ref[i]]
                 if bad and M is not None:
                     i = bad[0]
@@ -1114,9 +1209,10 @@ def chain_2d(res, rng, groups, viol):
                     tab = lst([f"({zlit(a_)}, {zlit(b_)}, {qlit(pr)})" for (a_, b_), pr in sorted(target.items())])
                     draws = lst([f"({qlit(seq[i])}, ({zlit(outs[0][i][0])}, {zlit(outs[0][i][1])}))" for i in range(len(seq))])
                     sm = samplers[0].state_manager
+                    frl = lst([f"({zlit(int(c_[0]))}, {zlit(int(c_[1]))})" for c_ in sorted({tuple(int(v_) for v_ in pz.project(ix)) for ix in sm.frontier_states_indices})])
                     g_inv2.append(f"({zlit(L)}, {zlit(R)}, {zlit(int(sm.max_frontier_indices))}, {tab}, {zlit(1_000_000 if M is None else M)}, "
-                                  f"{draws}, ({zlit(int(sm._last_projected_index))}, {zlit(int(sm._last_logged_index))}))")
-    groups.append(("inversion2d", "Z * Z * Z * list (Z * Z * Q) * Z * list (Q * (Z * Z)) * (Z * Z)", "chk_inv2d", g_inv2))
+                                  f"{draws}, ({zlit(int(sm._last_projected_index))}, {zlit(int(sm._last_logged_index))}), {frl})")
+    groups.append(("inversion2d", "Z * Z * Z * list (Z * Z * Q) * Z * list (Q * (Z * Z)) * (Z * Z) * list (Z * Z)", "chk_inv2d", g_inv2))
 
 
 # ----------------------------------------------------------------------------- n-d adapted tree: exact tie + wider oracle
@@ -1225,8 +1321,84 @@ def chain_nd_table(res, rng, groups, viol):
                      state=list(st), length=float(lengths.get(st, Fr(0))), target=float(target.get(st, 0)), **ctx)
             tab = lst([f"({lst([zlit(i), zlit(j)])}, {qlit(m)})" for (i, j), m in sorted(mass.items()) if m])
             draws = lst([f"({qlit(u)}, {lst([zlit(st[0]), zlit(st[1])])})" for u, st in outs])
-            g_nd.append(f"({zlit(n)}, {zlit(L)}, {tab}, {draws})")
-    groups.append(("bstadaptednd", "Z * Z * list (list Z * Q) * list (Q * list Z)", "chk_nd", g_nd))
+            g_nd.append(f"(2%nat, {zlit(n)}, {zlit(L)}, {tab}, {draws})")
+
+    # ---- rpylib's own copulas (independent / completely dependent), d = 2 and d = 3, exact when the intensity is a power of two
+    import itertools
+    import warnings
+    from c02_stepmodel import C02StepModel, measure_from_cell_masses
+    from rpylib.grid.spatial import CTMCGrid
+    from rpylib.distribution import levycopula as LC
+    from rpylib.model.levycopulamodel import LevyCopulaModel
+    from rpylib.process.markovchain.markovchainlevycopula import MarkovChainLevyCopula
+    real = [("independent", 2, 0.5, 2, 2, (2, 2)), ("independent", 3, 0.5, 1, 1, (2, 4, 4)), ("independent", 2, 0.5, 1, 3, (2, 2)),
+            ("dependent", 2, 0.5, 2, 2, None), ("independent", 3, 0.5, 1, 2, (4, 4, 2))]
+    if tier != "quick":
+        real += [("independent", 3, 0.25, 2, 2, (2, 4, 4)), ("dependent", 3, 0.5, 1, 1, None), ("independent", 2, 0.25, 4, 4, (2, 2))]
+    for cop, dim, h, L, R, shares in real:
+        n = L + R + 1
+        tot = 1 << 8
+        margins = []
+        base = _composition(rng, tot, n - 1, zero_frac=rng.choice([0.0, 0.25]))
+        for j in range(dim):
+            ints = base if cop == "dependent" else _composition(rng, tot, n - 1, zero_frac=rng.choice([0.0, 0.25]))
+            share = Fr(1) if shares is None else Fr(1, shares[j])
+            margins.append([Fr(v, tot) * share for v in ints[:L] + [0] + ints[L:]])
+        ctx = dict(sampler=f"BINARYSEARCHTREEADAPTED-{dim}d", copula=cop, h=h, left=L, right=R, margins=[[str(m) for m in mm] for mm in margins])
+
+        def mk():
+            axis = np.array([k * h for k in range(-L, R + 1)], dtype=float)
+            grid = CTMCGrid(h=h, origin_coordinate=L, axes=[axis.copy() for _ in range(dim)])
+            models = [C02StepModel(measure_from_cell_masses(axis, L, mm)) for mm in margins]
+            copula = LC.IndependentComponentsCopula() if cop == "independent" else LC.DependentComponentsCopula()
+            with warnings.catch_warnings():
+                warnings.simplefilter("ignore")
+                return MarkovChainLevyCopula(LevyCopulaModel(models, copula), grid, SM.BINARYSEARCHTREEADAPTED), grid
+        try:
+            proc, grid = mk()
+        except Exception as e:  # noqa
+            viol(f"factory raises {type(e).__name__} for a {dim}-d {cop} chain with SamplingMethod.BINARYSEARCHTREEADAPTED", error=str(e)[:200], **ctx)
+            continue
+        lam = Fr(float(proc.intensity_of_jumps))
+        o = grid.origin_coordinate
+        cellp = {}
+        for st in itertools.product(range(n), repeat=dim):
+            if all(c_ == L for c_ in st):
+                continue
+            c = o + tuple(c_ - L for c_ in st)
+            v = grid[c]
+            a = grid.middle(grid.left_point(c), v)
+            b = grid.middle(v, grid.right_point(c))
+            cellp[st] = Fr(float(proc.model.mass(a, b))) / lam
+        exact = lam.numerator & (lam.numerator - 1) == 0 and lam.denominator & (lam.denominator - 1) == 0 and sum(cellp.values()) == 1 \
+            and all(v >= 0 and v.denominator & (v.denominator - 1) == 0 for v in cellp.values())
+        res.bump("chain_nd_real", f"{cop} {dim}d [-{L},{R}] {'exact' if exact else 'inexact: oracle only'}")
+        if not exact:
+            continue
+        s = proc.sampling
+        unit = max(v.denominator for v in cellp.values())
+        us = {0.0, ulp_down(1.0)}
+        for k in pick(rng, range(1, unit), 80):
+            b_ = k / unit
+            us |= {b_, ulp_down(b_), ulp_up(b_)}
+        us = sorted(us) + [rng.randrange(0, 1 << 30) / (1 << 30) for _ in range(24)]
+        outs = []
+        for u in us:
+            st = tuple(int(x) for x in s.sample_with_us(np.array([u], dtype=float))[0])
+            res.count(("nd-real", cop, dim, h, L, R, u), kind=f"BinarySearchTreeAdapted.sample_with_us ({cop} {dim}d)")
+            key = tuple(c_ + L for c_ in st)
+            if not any(st) or key not in cellp:
+                viol(f"BINARYSEARCHTREEADAPTED-{dim}d through the factory returns the origin or a state outside the grid", u=u, got=list(st), **ctx)
+            elif cellp[key] == 0 and u == 0.0:
+                viol(f"BINARYSEARCHTREEADAPTED-{dim}d: the uniform 0.0 is sent to a state of probability zero", finding="F-C02-6", u=u, got=list(st),
+                     first_enumerated_state=[0] * (dim - 1) + [-L], probability_of_got="0", **ctx)
+            elif cellp[key] == 0:
+                viol(f"BINARYSEARCHTREEADAPTED-{dim}d through the factory returns a zero-probability state", u=u, got=list(st), **ctx)
+            outs.append((u, st))
+        tab = lst([f"({lst([zlit(c_) for c_ in cell])}, {qlit(m)})" for cell, m in sorted(cellp.items()) if m])
+        draws = lst([f"({qlit(u)}, {lst([zlit(c_) for c_ in st])})" for u, st in outs])
+        g_nd.append(f"({dim}%nat, {zlit(n)}, {zlit(L)}, {tab}, {draws})")
+    groups.append(("bstadaptednd", "nat * Z * Z * list (list Z * Q) * list (Q * list Z)", "chk_nd", g_nd))
 
 
 def chain_nd_wide(res, rng, viol):
@@ -1319,7 +1491,8 @@ def chain_nd_wide(res, rng, viol):
 
 # ----------------------------------------------------------------------------- Coq header (check functions)
 HEADER = r"""
-From Coq Require Import List ZArith QArith Bool.
+From Coq Require Import List ZArith QArith Qabs Bool.
+From RV Require Import Proofs.C02_Alias.
 From RV Require Import Base.QB Base.Corr Gen.GenPairing Model.Pairing Model.StepLaw Model.Bst Model.Alias Model.Huffman Model.Table Model.StatesManager Model.Inversion Model.BstAdapted Model.Factory Model.BstAdaptedNd Model.Stateful.
 Import ListNotations.
 Open Scope Q_scope.
@@ -1352,7 +1525,14 @@ Definition chk_table (c : list Q * list Z * bool * option (list Z * list Q) * li
   let '(p, J, exact, al, draws) := c in
   let t := create_table p in
   (match t, al with
-   | TableAlias J' aJ aq, Some (iJ, iq) => zlist_eqb J' J && (negb exact || (znat_eqb aJ iJ && qlist_eqb aq iq))
+   | TableAlias J' aJ aq, Some (iJ, iq) =>
+       zlist_eqb J' J
+       && (if exact then znat_eqb aJ iJ && qlist_eqb aq iq
+           else (* thetas / sum is rounded: the implementation's embedded tables (iJ, iq), read as exact rationals, must give
+                   every state thetas_k / sum within 2^-40 (tie-breaking may legitimately differ from the exact model) *)
+             let th := table_thetas p in let sm := qsum th in let K := length iq in
+             forallb (fun k => Qle_bool (Qabs (len_of (Z.of_nat k) (alias_segs K iq (map Z.to_nat iJ)) - nth k th 0 / sm)) (1 # 1099511627776))
+                     (seq 0 K))
    | TableOnly J', None => zlist_eqb J' J
    | _, _ => false
    end)
@@ -1384,8 +1564,8 @@ Definition cell_prob (axis : list Q) (o : Z) (pieces : list (Q * Q * Q)) (lam : 
 
 Definition iout_z (o : @iout Z) : Z := match o with Out s => s | Frontier => 999999%Z | NoOut => 888888%Z end.
 
-Definition chk_inversion (c : list Q * Z * Z * list (Q * Q * Q) * Q * Z * list (Q * Z) * list Q * (Z * Z)) : bool :=
-  let '(axis, o, F, pieces, lam, M, draws, final_cum, final_sm) := c in     (* F = the implementation's max_frontier_indices *)
+Definition chk_inversion (c : list Q * Z * Z * list (Q * Q * Q) * Q * Z * list (Q * Z) * list Q * (Z * Z) * list Z) : bool :=
+  let '(axis, o, F, pieces, lam, M, draws, final_cum, final_sm, fr) := c in     (* F = max_frontier_indices, fr = frontier states *)
   let L := o in let R := (Z.of_nat (length axis) - o - 1)%Z in
   let proj := z1d_project (- L) R 1 in
   let prob := cell_prob axis o pieces lam in
@@ -1398,7 +1578,9 @@ Definition chk_inversion (c : list Q * Z * Z * list (Q * Q * Q) * Q * Z * list (
         | [] => (true, st)
         | (u, want) :: r =>
             let so := inv_step proj outside F prob M st u in
-            if Z.eqb (iout_z (snd so)) want then go (fst so) r else (false, fst so)
+            (* exhaustion: the code returns a frontier state drawn at random; accepted iff it is one of the frontier states *)
+            if (match snd so with Frontier => existsb (Z.eqb want) fr | o' => Z.eqb (iout_z o') want end)
+            then go (fst so) r else (false, fst so)
         end in
       let '(ok, st) := go st0 draws in
       ok && qlist_eqb (i_cum st) final_cum && zpair_eqb (i_sm st) final_sm      (* (_last_projected_index, _last_logged_index) *)
@@ -1413,8 +1595,8 @@ Definition iout_zz (o : @iout (Z * Z)) : Z * Z :=
 
 (* 2-d INVERSION: enumeration of the factory for dimension 2 (Szudzik on N^2 mapped to Z^2, zero omitted),
    admissible = inside the box, probability table as data *)
-Definition chk_inv2d (c : Z * Z * Z * list (Z * Z * Q) * Z * list (Q * (Z * Z)) * (Z * Z)) : bool :=
-  let '(L, R, F, tab, M, draws, final_sm) := c in
+Definition chk_inv2d (c : Z * Z * Z * list (Z * Z * Q) * Z * list (Q * (Z * Z)) * (Z * Z) * list (Z * Z)) : bool :=
+  let '(L, R, F, tab, M, draws, final_sm, fr) := c in
   let proj := zd2_project szudzik_projection2d 1 in
   let outside := fun s => negb (in_box L R s) in
   let prob := lookup2 tab in
@@ -1426,15 +1608,16 @@ Definition chk_inv2d (c : Z * Z * Z * list (Z * Z * Q) * Z * list (Q * (Z * Z)) 
         | [] => (true, st)
         | (u, want) :: r =>
             let so := inv_step proj outside F prob M st u in
-            if zpair_eqb (iout_zz (snd so)) want then go (fst so) r else (false, fst so)
+            if (match snd so with Frontier => existsb (zpair_eqb want) fr | o' => zpair_eqb (iout_zz o') want end)
+            then go (fst so) r else (false, fst so)
         end in
       let '(ok, st) := go st0 draws in
       ok && zpair_eqb (i_sm st) final_sm
   end.
 
-Definition chk_nd (c : Z * Z * list (list Z * Q) * list (Q * list Z)) : bool :=
-  let '(n, o, tab, draws) := c in
-  forallb (fun d => option_eqb zlist_eqb (nd_sample (table_bm tab) 2 n o (fst d)) (Some (snd d))) draws.
+Definition chk_nd (c : nat * Z * Z * list (list Z * Q) * list (Q * list Z)) : bool :=
+  let '(dim, n, o, tab, draws) := c in
+  forallb (fun d => option_eqb zlist_eqb (nd_sample (table_bm tab) dim n o (fst d)) (Some (snd d))) draws.
 
 Definition chk_ba1d (c : list Q * Z * list (Q * Q * Q) * Q * Q * list (Q * Z)) : bool :=
   let '(axis, o, pieces, lam, h, draws) := c in
@@ -1452,6 +1635,7 @@ def correspond(res):
     direct_samplers(res, rng, groups, viol)
     chains(res, rng, groups, viol)
     chain_probability_step(res, rng, viol)
+    chain_float_sum(res, rng, viol)
     chain_2d(res, rng, groups, viol)
     chain_nd_table(res, rng, groups, viol)
     chain_nd_wide(res, rng, viol)
@@ -1504,6 +1688,18 @@ def matches_known(v, known):
         first = r.get("first_enumerated_state")
         return (r.get("sampler") in RIGHT_CLOSED and r.get("u") == 0.0 and first is not None and got == first
                 and r.get("probability_of_got") == "0")
+    if known["id"] == "F-C02-8":
+        # only BST / Huffman built on ROUNDED probabilities (intensity not a power of two), only a uniform at or above the float
+        # sum of the vector, only the last leaf in in-order (the catch-all of the descent), only if that leaf is the origin
+        # or a zero-probability state
+        lam = r.get("intensity")
+        if not isinstance(lam, float) or lam <= 0:
+            return False
+        fr = Fr(lam)
+        rounded = not (fr.numerator & (fr.numerator - 1) == 0 and fr.denominator & (fr.denominator - 1) == 0)
+        return (r.get("sampler") in ("BINARYSEARCHTREE", "HUFFMANNTREE") and rounded and isinstance(r.get("float_sum_of_probabilities"), float)
+                and r["float_sum_of_probabilities"] < 1.0 and r.get("u", 0.0) >= r["float_sum_of_probabilities"]
+                and r.get("got") == r.get("last_inorder_leaf"))
     return False
 
 
